@@ -47,6 +47,7 @@ import (
 )
 
 const farSentinel = 1000000
+const probeUniverse = 100
 
 func short(r common.Root) string { return hex.EncodeToString(r[:8]) }
 
@@ -207,7 +208,49 @@ func (p *projector) project(epc *common.EpochsContext, pubs []common.BLSPubkey) 
 		}
 	}
 	m["pk"], m["ix"] = pk, ix
+	// lookups of pubkeys that are NOT in the registry (the harness' key universe minus the registry)
+	inReg := map[common.BLSPubkey]bool{}
+	for _, pub := range pubs {
+		inReg[pub] = true
+	}
+	xk, xi := []int{}, []int{}
+	for k := 0; k < probeUniverse; k++ {
+		pub := p.keys.Pubkey(chain.KeyID(k))
+		if inReg[pub] {
+			continue
+		}
+		xk = append(xk, k)
+		if idx, ok := epc.ValidatorPubkeyCache.ValidatorIndex(pub); ok {
+			xi = append(xi, int(idx))
+		} else {
+			xi = append(xi, -1)
+		}
+	}
+	m["xk"], m["xi"] = xk, xi
 	return m
+}
+
+// depositLookups describes, for a block, how the given context answers for the pubkeys of the block's deposits.
+func (p *projector) depositLookups(sc *chain.StateCtx, env *common.BeaconBlockEnvelope) []map[string]int {
+	out := []map[string]int{}
+	if env == nil {
+		return out
+	}
+	_, pubs := p.registry(sc.State.BeaconState)
+	for _, d := range *chain.OpsOf(env.Body).Deposits {
+		e := map[string]int{"k": p.keyID(d.Data.Pubkey), "cache": -1, "reg": -1}
+		if idx, ok := sc.Epc.ValidatorPubkeyCache.ValidatorIndex(d.Data.Pubkey); ok {
+			e["cache"] = int(idx)
+		}
+		for i, pub := range pubs {
+			if pub == d.Data.Pubkey {
+				e["reg"] = i
+				break
+			}
+		}
+		out = append(out, e)
+	}
+	return out
 }
 
 func check(err error) {
@@ -336,12 +379,13 @@ func (r *recorder) emit(ev map[string]interface{}) {
 
 // logCtx logs one observation point: sc is the (post-)state with its long-lived context; side points (kind
 // "slot") are not adopted by the line and have no peer.
-func (r *recorder) logCtx(l *line, sc *chain.StateCtx, n0 int, kind string, o outcome, fs outcome, chainRoot string, preSlot common.Slot, preFork chain.Fork, preN int) {
+func (r *recorder) logCtx(l *line, sc *chain.StateCtx, n0 int, kind string, o outcome, fs outcome, chainRoot string, preSlot common.Slot, preFork chain.Fork, preN int, deplook []map[string]int) {
 	id := r.nextID
 	r.nextID++
 	side := kind == "slot"
 	ev := map[string]interface{}{"ev": "Ctx", "id": id, "line": l.name, "kind": kind, "out": o.Out, "root": o.Root,
 		"chainroot": chainRoot, "fs": fs, "slot": int(sc.Slot()), "fork": sc.Fork().String(), "n0": n0}
+	ev["deplook"], ev["pren"] = deplook, preN
 	if o.Out != "ok" {
 		ev["err"] = o.err
 		ev["live"], ev["fresh"], ev["reg"] = map[string]interface{}{}, map[string]interface{}{}, []int{}
@@ -419,24 +463,14 @@ func (r *recorder) advance(l *line, st step, chainRoot string) {
 	preSlot, preFork, preN := l.sc.Slot(), l.sc.Fork(), int(l.sc.ValidatorCount())
 	// every single slot on the way (epoch boundaries, upgrades) is a point of the chain: observe it on a side copy
 	if l.peer == nil {
-		side := clientCopy(l.sc)
-		n0 := l.n0
-		for s := preSlot + 1; s <= st.to && (st.kind == "block" || s < st.to); s++ {
-			ps, pf := side.Slot(), side.Fork()
-			o := run(side, step{kind: "slots", to: s})
-			if side.Spec.SlotToEpoch(s) != side.Spec.SlotToEpoch(ps) {
-				n0 = preN
-			}
-			r.logCtx(l, side, n0, "slot", o, o, o.Root, ps, pf, preN)
-			if o.Out != "ok" {
-				break
-			}
-		}
+		r.sideSlots(l, st, preSlot, preN, false)
 	}
 	// the same step from the serialized + reloaded pre-state with a fresh context
 	fsc := reload(l.sc.Spec, l.sc.State)
 	fsc.Keys = l.sc.Keys
 	fs := run(fsc, st)
+	// how the long-lived context answers for the depositors of the block, before the block
+	deplook := r.proj.depositLookups(l.sc, st.env)
 	// the long-lived line
 	next := clientCopy(l.sc)
 	o := run(next, st)
@@ -451,16 +485,41 @@ func (r *recorder) advance(l *line, st step, chainRoot string) {
 	if o.Out != "ok" {
 		sc = next
 	}
-	r.logCtx(l, sc, l.n0, st.kind, o, fs, chainRoot, preSlot, preFork, preN)
+	r.logCtx(l, sc, l.n0, st.kind, o, fs, chainRoot, preSlot, preFork, preN, deplook)
 	if o.Out != "ok" {
 		l.dead = true
 		r.sum.Dead = append(r.sum.Dead, fmt.Sprintf("%s@%d: %s", l.name, preSlot, o.err))
 	}
 }
 
+// sideSlots advances a client copy of the line slot by slot up to the step's target (for a block: up to its
+// slot, i.e. the pre-block state; for a slots step: the intermediate slots) and logs every point.
+func (r *recorder) sideSlots(l *line, st step, preSlot common.Slot, preN int, all bool) {
+	side := clientCopy(l.sc)
+	n0 := l.n0
+	for s := preSlot + 1; s <= st.to && (all || st.kind == "block" || s < st.to); s++ {
+		ps, pf := side.Slot(), side.Fork()
+		o := run(side, step{kind: "slots", to: s})
+		if side.Spec.SlotToEpoch(s) != side.Spec.SlotToEpoch(ps) {
+			n0 = preN
+		}
+		r.logCtx(l, side, n0, "slot", o, o, o.Root, ps, pf, preN, []map[string]int{})
+		if o.Out != "ok" {
+			break
+		}
+	}
+}
+
 func (r *recorder) after(c *chain.Chain, st step, err error) {
 	if err != nil {
-		return // the chain itself refused the step (never for honest scenarios); nothing to compare
+		// The chain itself refused the step (never for honest scenarios on a correct zrnt). The slots on the way
+		// to the step's target are still points of the chain: observe them on the long-lived lines.
+		for _, l := range r.lines[c] {
+			if l.peer == nil && !l.dead {
+				r.sideSlots(l, st, l.sc.Slot(), int(l.sc.ValidatorCount()), true)
+			}
+		}
+		return
 	}
 	root := short(c.StateRoot())
 	ls := r.lines[c]
@@ -691,7 +750,7 @@ func record(cfg chainCfg, f *os.File) {
 	{
 		l := main
 		o := outcome{Out: "ok", Root: short(l.sc.StateRoot())}
-		r.logCtx(l, l.sc, l.n0, "genesis", o, o, o.Root, l.sc.Slot(), l.sc.Fork(), int(l.sc.ValidatorCount()))
+		r.logCtx(l, l.sc, l.n0, "genesis", o, o, o.Root, l.sc.Slot(), l.sc.Fork(), int(l.sc.ValidatorCount()), []map[string]int{})
 	}
 
 	runSteps := func(ch *chain.Chain, sts []chain.StepPlan) bool {
